@@ -18,5 +18,6 @@ GMShallow == 2
 GMSeeds == << >>
 GMSlots == {}
 GMFields == {"uf1"}
+GMBelow == {}
 GMKinds == {"plain", "email", "num", "bool", "dollar", "date", "oid", "b64", "nsname", "null", "empty"}
 ====
